@@ -6,7 +6,8 @@ fall into one of the roles below; anything else raises `Untranslatable` (reporte
 
   * `loop_shape : Solve.Shape`       statement roles of `solve` (before / inside / after the loop, the `if` branch, the
                                      for/else), `Unit.__init__`'s initial `_old_results`, `init_solve` (out profile created
-                                     if absent or always), `get_root_hook_results` + overrides, `reevaluate_cache`
+                                     always / if absent / if absent and else brought up to date with the incoming
+                                     profile), `get_root_hook_results` + overrides, `reevaluate_cache`
                                      overrides, `_solve_subunits` (catch / raise), `HookFunction.__call__` (marks)
   * `range_start, range_stop_offset : Int`   `for i in range(<start>, self.<budgetAttr> + <offset>)`
   * `test_lhs_e, test_rhs_e : Expr`, `test_op : Solve.Cmp`   the element-wise comparison over the variables
@@ -319,56 +320,68 @@ def extract_old_init(fn, old_attr):
     return val
 
 
-def _stores_only(stmts, dict_path):
-    """every statement (inside for / if nests without else) is `<dict_path>[...] = ...`"""
-    for st in stmts:
-        if isinstance(st, (ast.For, ast.If)) and not st.orelse:
-            if not _stores_only(st.body, dict_path):
-                return False
-            continue
-        if isinstance(st, ast.Assign) and len(st.targets) == 1 and isinstance(st.targets[0], ast.Subscript) \
-                and _path(st.targets[0].value) == dict_path:
-            continue
+def _pure_comprehension(n):
+    """a set / dict / list comprehension (or display) that calls nothing but isinstance / str.startswith / dict views"""
+    if not isinstance(n, (ast.SetComp, ast.DictComp, ast.ListComp, ast.Set, ast.List)):
         return False
-    return bool(stmts)
-
-
-def _refreshes_only(stmts, self_name):
-    """the `else:` of `if not self.out_profile:` may only bring the reused out profile up to date with the incoming one:
-    every statement is a local set/list of names, a loop deleting keys of `self.out_profile.__dict__`, or an
-    `update` of it - nothing that replaces the object or touches `_old_results`"""
-    d = f"{self_name}.out_profile.__dict__"
-    for st in stmts:
-        if isinstance(st, ast.Assign) and len(st.targets) == 1 and _name(st.targets[0]) \
-                and isinstance(st.value, (ast.SetComp, ast.ListComp, ast.Set, ast.List)):
-            continue
-        if isinstance(st, ast.For) and not st.orelse and len(st.body) == 1 and isinstance(st.body[0], ast.Delete) \
-                and all(isinstance(t, ast.Subscript) and _path(t.value) == d for t in st.body[0].targets):
-            continue
-        if isinstance(st, ast.Expr) and _call_path(st.value) == d + ".update":
-            continue
-        return False
+    for c in ast.walk(n):
+        if isinstance(c, ast.Call):
+            f = c.func
+            if _name(f) == "isinstance":
+                continue
+            if isinstance(f, ast.Attribute) and f.attr in ("startswith", "items", "keys"):
+                continue
+            return False
+        if isinstance(c, (ast.NamedExpr, ast.Await, ast.Yield, ast.YieldFrom, ast.Lambda)):
+            return False
     return True
 
 
+def _hand_over_branch(stmts, self_name):
+    """the `else:` of `if not self.out_profile:` (the out profile exists and is re-used).  Recognised: local names bound to
+    pure comprehensions, and `for` loops (no else) whose bodies - possibly under `if`s without else - consist of
+    `delattr(self.out_profile, <name>)` / `setattr(self.out_profile, <name>, <name>)` only.  Nothing that replaces the
+    object, touches `_old_results` or calls anything else.  -> set of the writes found ({"delattr", "setattr"}) or None.
+    WHAT is deleted / set is not read from the text: the correspondence runs the real `init_solve` against
+    `Solve.handOver` on generated entries."""
+    target = f"{self_name}.out_profile"
+    found = set()
+
+    def writes(body):
+        for st in body:
+            if isinstance(st, ast.If) and not st.orelse and not any(isinstance(c, ast.Call) for c in ast.walk(st.test)):
+                if not writes(st.body):
+                    return False
+                continue
+            if isinstance(st, ast.Expr) and isinstance(st.value, ast.Call) and not st.value.keywords:
+                c = st.value
+                f = _name(c.func)
+                if f == "delattr" and len(c.args) == 2 and _path(c.args[0]) == target and _name(c.args[1]):
+                    found.add("delattr")
+                    continue
+                if f == "setattr" and len(c.args) == 3 and _path(c.args[0]) == target and _name(c.args[1]) and _name(c.args[2]):
+                    found.add("setattr")
+                    continue
+            return False
+        return bool(body)
+    for st in stmts:
+        if isinstance(st, ast.Assign) and len(st.targets) == 1 and _name(st.targets[0]) and _pure_comprehension(st.value):
+            continue
+        if isinstance(st, ast.For) and not st.orelse and (_name(st.iter) or _call_path(st.iter)) \
+                and (_name(st.iter) or (_call_path(st.iter) or "").endswith(".items")) and writes(st.body):
+            continue
+        return None
+    return found
+
+
 def extract_init_solve(fn):
+    """-> (roles, how the out profile comes about: "always" | "create-if-absent" (an existing one is re-used as it is) |
+    "create-if-absent-else-hand-over" (an existing one is re-used and brought up to date with the incoming profile))"""
     self_name = fn.args.args[0].arg
     roles, out = [], None
-    prev_in = None
     for st in _stmts(fn):
         if isinstance(st, ast.For) and _call_path(st.iter) == f"{self_name}._yield_pre_processors":
             roles.append("pre-processors")
-            continue
-        # `previous = self.in_profile` before the new in profile is created, and afterwards
-        # `if previous is not None: <only stores into self.in_profile.__dict__[...]>` (starting values for the iteration)
-        if isinstance(st, ast.Assign) and len(st.targets) == 1 and _name(st.targets[0]) \
-                and _path(st.value) == f"{self_name}.in_profile" and "in_profile" not in roles:
-            prev_in = st.targets[0].id
-            continue
-        if isinstance(st, ast.If) and not st.orelse and prev_in is not None and "in_profile" in roles \
-                and isinstance(st.test, ast.Compare) and _name(st.test.left) == prev_in and len(st.test.ops) == 1 \
-                and isinstance(st.test.ops[0], ast.IsNot) and isinstance(st.test.comparators[0], ast.Constant) \
-                and st.test.comparators[0].value is None and _stores_only(st.body, f"{self_name}.in_profile.__dict__"):
             continue
         if isinstance(st, ast.Assign) and len(st.targets) == 1:
             t, c = _path(st.targets[0]), _call_path(st.value)
@@ -379,8 +392,7 @@ def extract_init_solve(fn):
                 roles.append("out_profile")
                 out = "always"
                 continue
-        if isinstance(st, ast.If) and len(st.body) == 1 and isinstance(st.body[0], ast.Assign) \
-                and _refreshes_only(st.orelse, self_name):
+        if isinstance(st, ast.If) and len(st.body) == 1 and isinstance(st.body[0], ast.Assign):
             a = st.body[0]
             g = st.test
             absent = (isinstance(g, ast.UnaryOp) and isinstance(g.op, ast.Not) and _path(g.operand) == f"{self_name}.out_profile") \
@@ -388,9 +400,17 @@ def extract_init_solve(fn):
                     and isinstance(g.ops[0], ast.Is) and isinstance(g.comparators[0], ast.Constant)
                     and g.comparators[0].value is None)
             if absent and _path(a.targets[0]) == f"{self_name}.out_profile" and _call_path(a.value) == f"{self_name}.OutProfile":
-                roles.append("out_profile")
-                out = "create-if-absent"
-                continue
+                if not st.orelse:
+                    roles.append("out_profile")
+                    out = "create-if-absent"
+                    continue
+                w = _hand_over_branch(st.orelse, self_name)
+                if w == {"delattr", "setattr"}:
+                    roles.append("out_profile")
+                    out = "create-if-absent-else-hand-over"
+                    continue
+                raise Untranslatable("init_solve: the branch for an existing out profile is not the recognised hand-over "
+                                     f"(found {sorted(w) if w is not None else 'other statements'})")
         raise Untranslatable(f"init_solve: statement {ast.unparse(st)[:80]}")
     if out is None or "in_profile" not in roles:
         raise Untranslatable("init_solve does not create the in / out profile")
